@@ -256,6 +256,109 @@ def _quantifier_loops(stmts):
     return out
 
 
+def _ends_flow(stmts):
+    if not stmts:
+        return False
+    last = stmts[-1]
+    if isinstance(last, (ast.Return, ast.Raise, ast.Continue, ast.Break, InlineJump)):
+        return True
+    if isinstance(last, ast.If):
+        return bool(last.orelse) and _ends_flow(last.body) and _ends_flow(last.orelse)
+    return False
+
+
+def _prune_const_ifs(stmts):
+    """`if True: A else: B` -> A, `if False: A else: B` -> B; statements after a statement that always leaves are dropped."""
+    out = []
+    for st in stmts:
+        if isinstance(st, ast.If):
+            st.body = _prune_const_ifs(st.body)
+            st.orelse = _prune_const_ifs(st.orelse)
+            if isinstance(st.test, ast.Constant) and isinstance(st.test.value, bool):
+                out += st.body if st.test.value else st.orelse
+            else:
+                if not st.body:
+                    st.body = [ast.copy_location(ast.Pass(), st)]
+                out.append(st)
+        elif isinstance(st, InlineBlock):
+            st.body = _prune_const_ifs(st.body)
+            st.epilogue = _prune_const_ifs(st.epilogue)
+            out.append(st)
+        elif isinstance(st, (ast.For, ast.While, ast.With)):
+            st.body = _prune_const_ifs(st.body) or [ast.copy_location(ast.Pass(), st)]
+            if hasattr(st, "orelse"):
+                st.orelse = _prune_const_ifs(st.orelse)
+            out.append(st)
+        elif isinstance(st, ast.Try):
+            st.body = _prune_const_ifs(st.body) or [ast.copy_location(ast.Pass(), st)]
+            st.orelse = _prune_const_ifs(st.orelse)
+            st.finalbody = _prune_const_ifs(st.finalbody)
+            for h in st.handlers:
+                h.body = _prune_const_ifs(h.body) or [ast.copy_location(ast.Pass(), h)]
+            out.append(st)
+        else:
+            out.append(st)
+        if out and isinstance(out[-1], (ast.Return, ast.Raise, ast.Continue, ast.Break)):
+            break
+        if out and isinstance(out[-1], InlineJump):
+            break
+    return out
+
+
+def _own_jumps(stmts):
+    """InlineJump statements of this block (not those of nested inlined blocks)"""
+    n = 0
+    for st in stmts:
+        if isinstance(st, InlineJump):
+            n += 1
+        elif isinstance(st, InlineBlock):
+            n += _own_jumps(st.epilogue)
+        else:
+            for f in ("body", "orelse", "finalbody"):
+                n += _own_jumps(getattr(st, f, []) or [])
+            for h in getattr(st, "handlers", []) or []:
+                n += _own_jumps(h.body)
+    return n
+
+
+def _flatten_blocks(stmts):
+    """An inlined helper whose only return is its last statement is a plain statement sequence: prologue; body; epilogue, and when the
+    statement that received the result is `x = <result>` / `return <result>` the returned expression takes the place of the temporary."""
+    out = []
+    for st in stmts:
+        if isinstance(st, InlineBlock):
+            st.prologue = _flatten_blocks(st.prologue)
+            st.body = _flatten_blocks(st.body)
+            st.epilogue = _flatten_blocks(st.epilogue)
+            nj = _own_jumps(st.body)
+            body = list(st.body)
+            tail_jump = bool(body) and isinstance(body[-1], InlineJump)
+            if nj == 0 or (nj == 1 and tail_jump):
+                if tail_jump:
+                    body = body[:-1]
+                ep = list(st.epilogue)
+                last = body[-1] if body else None
+                is_ret = isinstance(last, ast.Assign) and len(last.targets) == 1 and isinstance(last.targets[0], ast.Name) and last.targets[0].id == st.ret
+                if is_ret:
+                    uses = [n for e in ep for n in ast.walk(e) if isinstance(n, ast.Name) and n.id == st.ret]
+                    if not ep:
+                        body = body[:-1] + ([] if isinstance(last.value, (ast.Constant, ast.Name)) else [ast.copy_location(ast.Expr(value=last.value), last)])
+                    elif len(uses) == 1 and isinstance(ep[0], (ast.Return, ast.Assign, ast.AnnAssign, ast.Expr)) and getattr(ep[0], "value", None) is uses[0]:
+                        ep[0].value = last.value
+                        body = body[:-1]
+                out += st.prologue + body + ep
+                continue
+            out.append(st)
+            continue
+        for f in ("body", "orelse", "finalbody"):
+            if isinstance(getattr(st, f, None), list) and not isinstance(st, (ast.FunctionDef, ast.AsyncFunctionDef, ast.ClassDef, ast.Lambda)):
+                setattr(st, f, _flatten_blocks(getattr(st, f)))
+        for h in getattr(st, "handlers", []) or []:
+            h.body = _flatten_blocks(h.body)
+        out.append(st)
+    return out
+
+
 class _Rename(ast.NodeTransformer):
     def __init__(self, m):
         self.m = m
@@ -322,6 +425,7 @@ class Normalizer:
         self.inlined = []      # (caller, helper) for evidence
         self.dead = set()
         self.unrolled = []
+        self.split_handlers = []
         self._index()
 
     # -- index ------------------------------------------------------------------
@@ -492,7 +596,7 @@ class Normalizer:
             return
         fdef._normalised = True
         state = {"locals": _local_names(fdef), "caller": stack[0], "displays": _single_displays(fdef)}
-        fdef.body = self._stmts(fdef.body, modname, cname, stack, state)
+        fdef.body = _flatten_blocks(self._stmts(fdef.body, modname, cname, stack, state))
 
     def _stmts(self, stmts, modname, cname, stack, state):
         out = []
@@ -540,6 +644,7 @@ class Normalizer:
             st.finalbody = rec(st.finalbody)
             for h in st.handlers:
                 h.body = rec(h.body)
+            st.handlers = self._split_handlers(st.handlers, state)
             return [st]
         if isinstance(st, (ast.Assign, ast.Return)) and isinstance(getattr(st, "value", None), ast.IfExp):
             # N5: x = A if C else B  ->  if C: x = A else: x = B   (same for return); evaluation order is unchanged
@@ -679,6 +784,163 @@ class Normalizer:
         state["locals"] |= {ren.get(n, n) for n in hl} | {ret}
         self.inlined.append((state["caller"], qual))
         return blk, ret
+
+    # -- N7 ------------------------------------------------------------------------------
+    def _exc_rel(self, a, b):
+        """Relation of exception classes named a and b: 'sub' (a is b or derives from it), 'disjoint' (no object is an instance of both,
+        closed world: single inheritance chains of the repository's classes and the builtins), or None (b may derive from a / unknown)."""
+        import builtins
+
+        def chain(nm):
+            out, seen = [nm], {nm}
+            cur = nm
+            while True:
+                defs = self.by_bare.get(cur)
+                if defs:
+                    if len(defs) != 1:
+                        return None
+                    bases = self._base_names(defs[0][1])
+                    if len(bases) != 1 or len(defs[0][1].bases) != 1:
+                        return None
+                    cur = bases[0]
+                else:
+                    o = getattr(builtins, cur, None)
+                    if not (isinstance(o, type) and issubclass(o, BaseException)):
+                        return None
+                    mro = [c.__name__ for c in o.__mro__[1:] if c is not object]
+                    if any(len(c.__bases__) > 1 for c in o.__mro__):
+                        return None
+                    return out + mro
+                if cur in seen:
+                    return None
+                seen.add(cur)
+                out.append(cur)
+        ca, cb = chain(a), chain(b)
+        if ca is None or cb is None:
+            return None
+        if b in ca:
+            return "sub"
+        if a in cb:
+            return None
+        # neither derives from the other; a common descendant would need multiple inheritance: look for one in the repository
+        for (m, c), cd in self.classes.items():
+            if len(cd.bases) > 1:
+                bn = set(self._base_names(cd))
+                anc = set()
+                for x in bn:
+                    anc |= set(chain(x) or [x])
+                if a in anc and b in anc:
+                    return None
+        return "disjoint"
+
+    def _split_handlers(self, handlers, state):
+        """N7: `except (A, B) as e: BODY` -> `except A as e: BODY_A` / `except B as e: BODY_B` (same order, so the same clause set matches),
+        each body specialised by deciding `isinstance(e, T)` tests from the clause's own class and the classes of the clauses before it."""
+        out = []
+        earlier = []        # class names of the clauses above (an exception reaching this clause is an instance of none of them)
+        for h in handlers:
+            if isinstance(h.type, ast.Tuple) and h.type.elts and all(isinstance(e, (ast.Name, ast.Attribute)) for e in h.type.elts):
+                types = list(h.type.elts)
+            else:
+                types = [h.type]
+            multi = len(types) > 1
+            for t in types:
+                tn = t.id if isinstance(t, ast.Name) else (t.attr if isinstance(t, ast.Attribute) else None)
+                if multi:
+                    nh = ast.ExceptHandler(type=t, name=h.name, body=copy.deepcopy(h.body))
+                    ast.copy_location(nh, h)
+                    nh._split_from = h
+                else:
+                    nh = h
+                if h.name and tn and (multi or self._has_isinstance(nh.body, h.name)):
+                    nh.body = self._specialise(nh.body, h.name, tn, list(earlier))
+                out.append(nh)
+                if tn:
+                    earlier.append(tn)
+            if multi:
+                self.split_handlers.append((state["caller"], getattr(h, "lineno", 0), len(types)))
+        return out
+
+    @staticmethod
+    def _has_isinstance(body, name):
+        for n in ast.walk(ast.Module(body=body, type_ignores=[])):
+            if isinstance(n, ast.Call) and isinstance(n.func, ast.Name) and n.func.id == "isinstance" and len(n.args) == 2 \
+                    and isinstance(n.args[0], ast.Name):
+                return True
+        return False
+
+    def _specialise(self, body, name, cls, earlier):
+        # names that are plain copies of the caught exception (parameters of inlined helpers), never re-bound
+        stores = {}
+        for n in ast.walk(ast.Module(body=body, type_ignores=[])):
+            if isinstance(n, ast.Name) and isinstance(n.ctx, (ast.Store, ast.Del)):
+                stores.setdefault(n.id, []).append(n)
+        if name in stores:
+            return body
+        alias = {name}
+        changed = True
+        while changed:
+            changed = False
+            for n in ast.walk(ast.Module(body=body, type_ignores=[])):
+                if isinstance(n, ast.Assign) and len(n.targets) == 1 and isinstance(n.targets[0], ast.Name) and isinstance(n.value, ast.Name) \
+                        and n.value.id in alias and n.targets[0].id not in alias and len(stores.get(n.targets[0].id, [])) == 1:
+                    alias.add(n.targets[0].id)
+                    changed = True
+        norm = self
+
+        def decide(tnode):
+            ts = tnode.elts if isinstance(tnode, ast.Tuple) else [tnode]
+            res = []
+            for t in ts:
+                tn = t.id if isinstance(t, ast.Name) else (t.attr if isinstance(t, ast.Attribute) else None)
+                if tn is None:
+                    return None
+                r = norm._exc_rel(cls, tn)
+                if r == "sub":
+                    return True
+                if r == "disjoint" or any(norm._exc_rel(tn, e) == "sub" for e in earlier):
+                    res.append(False)
+                else:
+                    res.append(None)
+            return False if all(x is False for x in res) else None
+
+        class T(ast.NodeTransformer):
+            def visit_Call(s, node):
+                s.generic_visit(node)
+                if isinstance(node.func, ast.Name) and node.func.id == "isinstance" and len(node.args) == 2 and not node.keywords \
+                        and isinstance(node.args[0], ast.Name) and node.args[0].id in alias:
+                    d = decide(node.args[1])
+                    if d is not None:
+                        return ast.copy_location(ast.Constant(value=d), node)
+                return node
+
+            def visit_UnaryOp(s, node):
+                s.generic_visit(node)
+                if isinstance(node.op, ast.Not) and isinstance(node.operand, ast.Constant) and isinstance(node.operand.value, bool):
+                    return ast.copy_location(ast.Constant(value=not node.operand.value), node)
+                return node
+
+            def visit_BoolOp(s, node):
+                s.generic_visit(node)
+                vals = []
+                for v in node.values:
+                    if isinstance(v, ast.Constant) and isinstance(v.value, bool):
+                        if isinstance(node.op, ast.And) and v.value is False and all(_side_effect_free(x) or isinstance(x, ast.Constant) for x in vals):
+                            return ast.copy_location(ast.Constant(value=False), node)
+                        if isinstance(node.op, ast.Or) and v.value is True and all(_side_effect_free(x) or isinstance(x, ast.Constant) for x in vals):
+                            return ast.copy_location(ast.Constant(value=True), node)
+                        if (isinstance(node.op, ast.And) and v.value is True) or (isinstance(node.op, ast.Or) and v.value is False):
+                            if v is not node.values[-1] or vals:
+                                continue
+                    vals.append(v)
+                if not vals:
+                    return ast.copy_location(ast.Constant(value=isinstance(node.op, ast.And)), node)
+                if len(vals) == 1:
+                    return vals[0]
+                node.values = vals
+                return node
+        body = [T().visit(st) for st in body]
+        return _prune_const_ifs(body)
 
     # -- N2 ------------------------------------------------------------------------------
     def _const_display(self, it, modname, cname, local_displays=None):
